@@ -38,7 +38,7 @@ func (unpacker *RtpUnpackerRaw) TryUnpackOne(list *RtpPacketList) (unpackedFlag 
 	b := p.Packet.Body()
 	var outPkt base.AvPacket
 	outPkt.PayloadType = unpacker.payloadType
-	outPkt.Timestamp = int64(p.Packet.Header.Timestamp / uint32(unpacker.clockRate/1000))
+	outPkt.Timestamp = int64(uint64(p.Packet.Header.Timestamp) * 1000 / uint64(unpacker.clockRate))
 	outPkt.Payload = b
 	unpacker.onAvPacket(outPkt)
 
